@@ -210,6 +210,10 @@ def gen_int_expr(r, depth, reads, inner=()):
         q = "q%d" % depth
         return "len({%s: %s for %s in range(2)})" % (q, sub(inner=list(inner) + [q]), q)
     if k == 7:
+        if reads and r.random() < 0.3:
+            # a parameter named like the outer name its default reads: the default belongs to the enclosing scope
+            nm = r.choice(list(reads))
+            return "(lambda %s=%s: %s + 1)()" % (nm, nm, nm)
         sig, names, call = gen_sig(r, depth, reads, inner, lam=True)
         return "(lambda %s: %s)(%s)" % (sig, gen_int_expr(r, depth - 1, reads, list(inner) + names), call)
     if k == 8:
@@ -524,6 +528,9 @@ DIRECTED = [
     ("nested-comp-element", "<% f = lambda: [x for i in range(2)] %>${f()}", {"x": 7}, True, "[7, 7]", None),
     ("nested-comp-condition", "<% f = lambda: [i for i in range(3) if i != x] %>${f()}", {"x": 1}, True, "[0, 2]", None),
     ("missing-in-default", "<% f = lambda k=nope: k %>${f()}", {}, True, "NameError:nope", None),
+    ("default-named-like-parameter", "<% f = lambda x=x: x %>${f()}", {"x": 5}, True, "5", None),
+    ("kwonly-default-named-like-parameter", "<%\ndef g(*, y=y):\n    return y\n%>${g()}", {"y": 6}, True, "6", None),
+    ("default-reads-earlier-parameter-name", "<%\ndef h(a, b=a):\n    return (a, b)\n%>${h(1)}", {"a": 9}, True, "(1, 9)", None),
     ("missing-in-nested-comp", "<% f = lambda: [nope for i in range(2)] %>${f()}", {}, True, "NameError:nope", None),
     ("except-name", "<%\ntry:\n    1 // 0\nexcept ZeroDivisionError as e:\n    m = 'caught'\n%>${m}", {}, True, "caught", None),
     ("posonly", "<%\ndef fn(a, /, b):\n    return a - b\n%>${fn(5, 2)}", {}, True, "3", None),
